@@ -640,7 +640,9 @@ class Log(registering.StoriedRegistrar):
                     #self.formats[tag][field] = fmt
 
 
-        if self.rule in (CHANGE, ):  # build last copies for if changed
+        if self.rule in (CHANGE, ) and self.stamp is None:  # build last copies for if changed
+            # only before the first record: on a restart .lasts must keep the last
+            # logged values so a change made while stopped is still logged
             self.lasts.clear()
             for tag, fields in self.fields.items():  # list of fields by tag
                 loggee = self.loggees[tag]
